@@ -4,6 +4,7 @@ from __future__ import annotations
 
 from asyncio import (
     FIRST_COMPLETED,
+    CancelledError,
     ensure_future,
     gather,
     get_running_loop,
@@ -1331,7 +1332,9 @@ class Executor(Generic[TContext]):
                     append_awaitable(index)
 
                 index += 1
-        except Exception:
+        except (Exception, CancelledError):
+            # Also close the iterator when we are cancelled while iterating
+            # (e.g. because a sibling field failed), not only on errors.
             if early_return is not None:  # pragma: no branch
                 with suppress_exceptions:
                     await early_return()
